@@ -110,6 +110,9 @@ func suCatalogue(sc *suScenario) FghCatalogue {
 		switch r.Plat {
 		case "good":
 			content = fghTarGz("crs-toolchain", suPayload(r.Ver))
+		case "tgz":
+			name = fmt.Sprintf("crs-toolchain_%s_linux_amd64.tgz", strings.TrimPrefix(tag, "v"))
+			content = fghTarGz("crs-toolchain", suPayload(r.Ver))
 		case "corrupt":
 			content = []byte("this is not a gzip stream " + tag)
 		case "badmember":
@@ -232,7 +235,7 @@ func checkC20(c *Ctx) error {
 	c.Cov["version_lookups_replayed"] = atomic.LoadInt64(&suVersionRuns)
 	c.Cov["version_lookups_that_reported_a_release"] = atomic.LoadInt64(&suVersionReports)
 	c.Cov["exhaustive"] = keepMod == 1
-	c.Cov["rule"] = fmt.Sprintf("TLC explores every scenario (catalogue of 0..%s releases from a pool of 22 release shapes, versions v0.9.0 .. v3.0.0 incl. v2.0.5/v2.0.12/v2.0.13/v2.10.0 x running version {v1.0.0, v2.0.12, pre-release build v2.1.0-rc.1, development build} x 8 fault positions x {self-update, version (release look-up outside CI)}) through the step machine List/Select/Compare/FetchAsset/FetchSums/Verify/Replace and checks Integrity on every state; 1/%d of the scenarios are replayed: the unmodified binary runs against a scripted fake GitHub (CONNECT proxy + TLS with an ad-hoc CA) and its outcome (executable bytes, exit status) must be one the model allows; non-trivial = catalogue not empty and (fault, bad checksum or bad asset)", maxRel, keepMod)
+	c.Cov["rule"] = fmt.Sprintf("TLC explores every scenario (catalogue of 0..%s releases from a pool of 25 release shapes, versions v0.9.0 .. v3.0.0 incl. v2.0.5/v2.0.12/v2.0.13/v2.10.0 x running version {v1.0.0, v2.0.12, pre-release build v2.1.0-rc.1, development build} x 8 fault positions x {self-update, version (release look-up outside CI)}) through the step machine List/Select/Compare/FetchAsset/FetchSums/Verify/Replace and checks Integrity on every state; 1/%d of the scenarios are replayed: the unmodified binary runs against a scripted fake GitHub (CONNECT proxy + TLS with an ad-hoc CA) and its outcome (executable bytes, exit status) must be one the model allows; non-trivial = catalogue not empty and (fault, bad checksum or bad asset)", maxRel, keepMod)
 	c.Assumptions = append(c.Assumptions, "the fake release service speaks the subset of the GitHub API that go-selfupdate v1.4.1 uses (release list, browser download URLs, asset API)")
 	c.Summary = fmt.Sprintf("states=%d scenarios=%d replayed=%d", st.Distinct, len(scen), len(keys))
 	return nil
